@@ -832,6 +832,27 @@ func runPair(c *Ctx, f *FC, nr map[string]bool) *pairAn {
 	}
 	sort.Strings(nz)
 	a.runPairDepth(fns)
+	// PAIR.drop: a state-returning call whose new state is discarded (the parse continues from a state that has
+	// not consumed what the call consumed, or without the scope/offside change it made)
+	r.Rule("PAIR.drop", "no parse state is dropped: every call whose result carries a ParseState has that component bound, returned or passed on", 100)
+	checkResultsNotDropped(c, f, "PAIR.drop", func(t types.Type) []int {
+		if t == nil {
+			return nil
+		}
+		if a.isPS(t) {
+			return []int{-1}
+		}
+		if n, ok := t.(*types.Named); ok && n.Obj().Pkg() != nil && n.Obj().Pkg().Path() == ir.FrtPath && strings.HasPrefix(n.Obj().Name(), "Tuple") {
+			var res []int
+			for i := 0; i < n.TypeArgs().Len(); i++ {
+				if a.isPS(n.TypeArgs().At(i)) {
+					res = append(res, i)
+				}
+			}
+			return res
+		}
+		return nil
+	}, "parse state", "the tokens the call consumed and the scope/offside changes it made are lost, so the same input is parsed again or a binder is registered in the wrong scope", "state_producing_calls")
 	r.Note("PAIR P3: non-primitive functions with a non-zero summary (legal when compensated by their callers): %s", strings.Join(nz, ", "))
 	return a
 }
